@@ -252,8 +252,8 @@ ENGINES.append(dict(name="E-FAULT", path="harness/fault.cpp", serves_properties=
 _TOOLS = ["cdns-merge", "cdns-itemcount", "cdns-blocks", "cdns-items", "cdns-preamble"]
 CHECKS["C18"] = dict(
     level="exploration", engine="E-CLI",
-    technique="exhaustive enumeration of argument tuples on the real tool binaries: every tuple of 1..3 inputs over a pool of 15 files through cdns-merge, cdns-itemcount with every option combination, compared with the independent reader",
-    level_text="Pool: A (1 parameter set, 10^6 ticks, 3 blocks), B (2 sets, 10^3 ticks, reduced hints, collection parameters, 4 blocks alternating sets), C (10^9 ticks, all QR hints off, statistics), D (minor version differs), E (private version differs), G (300 non-C-DNS bytes), H (B cut inside its 2nd block), I (valid, zero blocks), J (10^9 ticks, blocks without block-parameters-index), K (A with two empty blocks), Z (missing path). All 15+225+3375 tuples (+ one tuple of 142 inputs whose 280 distinct parameter sets push the merged file's block-parameters indices beyond 8 bits) are merged by the real cdns-merge (ASan/UBSan build); expected blocks = non-empty blocks of every input that is C-DNS and version-equal to the first readable one, up to its first error, in order; the output must validate, hold exactly those blocks with records, statistics, earliest time and absolute times unchanged, and each block's parameter set in the output preamble must equal the one it had in its source; with no contributing block the output must be empty. cdns-itemcount (-b, -p, both, none) on every valid input and merged output must print the counts of the independent parse.",
+    technique="exhaustive enumeration of argument tuples on the real tool binaries: every tuple of 1..3 inputs over a pool of 16 files through cdns-merge, cdns-itemcount with every option combination, compared with the independent reader",
+    level_text="Pool: A (1 parameter set, 10^6 ticks, 3 blocks), B (2 sets, 10^3 ticks, reduced hints, collection parameters, 4 blocks alternating sets), C (10^9 ticks, all QR hints off, statistics), D (minor version differs), E (private version differs), G (300 non-C-DNS bytes), H (B cut inside its 2nd block), I (valid, zero blocks), J (10^9 ticks, blocks without block-parameters-index), K (A with two empty blocks), Z (missing path). All 16+256+4096 tuples (+ one tuple of 142 inputs whose 280 distinct parameter sets push the merged file's block-parameters indices beyond 8 bits) are merged by the real cdns-merge (ASan/UBSan build); expected blocks = non-empty blocks of every input that is C-DNS and version-equal to the first readable one, up to its first error, in order; the output must validate, hold exactly those blocks with records, statistics, earliest time and absolute times unchanged, and each block's parameter set in the output preamble must equal the one it had in its source; with no contributing block the output must be empty. cdns-itemcount (-b, -p, both, none) on every valid input and merged output must print the counts of the independent parse.",
     level_note="Trusted: ref/ reader for inputs and outputs; integers are extracted from the tools' stdout without relying on the free-text layout. The other inspection tools are covered for safety by C03's tools stage.",
     stages=[dict(harness="cli", variant="asan", args=["--mode", "merge"], tools=["cdns-merge", "cdns-itemcount"])],
     rule="tuples enumerated exhaustively (order matters, repetition allowed); every tuple is a distinct real tool run; non-trivial: all",
